@@ -36,7 +36,7 @@ func runC01(c *Ctx) {
 	c01Value(c, a)
 	// the batch query answers each quantile like the single query, and a copy of a sketch starts from the same state without sharing it
 	c.shared(func() { c12Batch(c, a) }, func(o *Obligation) bool { return true })
-	c.shared(func() { c14Copies(c, a) }, keyMentions("DDSketch.Copy"))
+	c.shared(func() { c14Copies(c, a) }, func(o *Obligation) bool { return !strings.Contains(o.Key, "SummaryStatistics") })
 	// the answers hold for every query, not only the first: rank lookups and quantile queries leave no observable write
 	if pr := c.paginated(); pr.err == "" {
 		c.shared(func() { c14Purity(c, a, pr) }, keyMentions("KeyAtRank", "GetValueAtQuantile", "GetValuesAtQuantiles"))
